@@ -317,6 +317,8 @@ def generate(repo):
     lines.append('')
     lines.append('Definition engine_methods : list (string * code) := [' +
                  '; '.join('(%s, code_%s)' % (q(n), n) for n in names) + '].')
+    locked = sorted(f.name for f in fns if any(isinstance(d, ast.Name) and d.id == '_synchronize' for d in f.decorator_list))
+    lines.append('Definition synchronized_methods : list string := [' + '; '.join(q(n) for n in locked) + '].')
     handlers = sorted(n for n in names if n.startswith('_process_') and n not in ('_process_batch', '_process_operation', '_process_template_attribute'))
     lines.append('Definition operation_handlers : list string := [' + '; '.join(q(n) for n in handlers) + '].')
     # the dispatcher must reach exactly these handlers
